@@ -209,6 +209,17 @@ fn fft_case(sc: &J, out: &mut dyn Write) {
             let rots: Vec<i32> = sc["rots"].as_array().map(|a| a.iter().map(|r| r.as_i64().unwrap() as i32).collect()).unwrap_or_else(|| vec![-1, 0, 1]);
             let li = d.l_i_range(x, x.pow_vartime([n as u64]), rots.clone());
             let rot: Vec<u64> = rots.iter().map(|r| tv(&d.rotate_omega(x, Rotation(*r)))).collect();
+            // rotation of a polynomial in Lagrange form, one rotation at a time (an empty list stands for a panic)
+            let polyrot: Vec<Vec<u64>> = rots
+                .iter()
+                .map(|r| {
+                    let p = d.lagrange_from_vec(input.clone());
+                    match std::panic::catch_unwind(std::panic::AssertUnwindSafe(|| p.rotate(Rotation(*r)))) {
+                        Ok(q) => tvs(&q),
+                        Err(_) => vec![],
+                    }
+                })
+                .collect();
             let z = T::from(sc["z"].as_u64().unwrap_or(7));
             let cv: Vec<T> = coeff.iter().cloned().collect();
             let kd = kate_division(cv.iter(), z);
@@ -222,7 +233,7 @@ fn fft_case(sc: &J, out: &mut dyn Write) {
             json!({"k":k,"j":j,"n":n,"extended_k":d.extended_k(),"omega":tv(&omega),"omega_inv":tv(&d.get_omega_inv()),
                 "extended_omega":tv(&d.get_extended_omega()),"zeta":tv(&<T as WithSmallOrderMulGroup<3>>::ZETA),
                 "input":tvs(&input),"fft":tvs(&f),"coeff":tvs(&coeff),"back":tvs(&back),"ext":tvs(&ext_vals),"ext_back":tvs(&ext_back),
-                "div":div.map(|q| tvs(&q)),"x":tv(&x),"rots":rots,"l_i":tvs(&li),"rot":rot,"z":tv(&z),"kate":tvs(&kd),"evalz":tv(&evalz),
+                "div":div.map(|q| tvs(&q)),"x":tv(&x),"rots":rots,"l_i":tvs(&li),"rot":rot,"polyrot":polyrot,"z":tv(&z),"kate":tvs(&kd),"evalz":tv(&evalz),
                 "inner":tv(&ip),"interp_pts":tvs(&pts),"interp":tvs(&interp)})
         })
     });
